@@ -250,12 +250,23 @@ def run(ck):
             continue
         pre = [e for e in p.effects if e.kind == 'call' and e.name in ('sink_put_octet', 'sink_put_chunk') and not e.inloop]
         sof = any(c[0] == 'cmp' and c[1] == '==' and c[2][0] == '&b' and c[3] == C(1) for c in p.cond_terms())
+        sof_decided = any(c[0] == 'cmp' and c[1] in ('==', '!=') and c[2][0] == '&b' and 'flags' in fmt(c[2]) for c in p.cond_terms())
         done = p.ret == C(0)
+        if done and not sof_decided:
+            open_close_ok = False
+            detail = ('a frame is completed on a path that never consulted the start-of-frame flag: the opening step is not executed before the payload loop '
+                      '(an empty payload is framed without its opening delimiter)')
+            continue
         if done:
             want_n = 2 if sof else 1
             if len(pre) != want_n or any(strip_cast(e.args[1]) != C(END) for e in pre):
                 open_close_ok = False
                 detail = 'frame delimiters emitted outside the payload loop: %d (sof=%s)' % (len(pre), sof)
+    for p in eps:
+        raw_end_in_loop = [e for e in p.effects if e.kind == 'call' and e.inloop and e.name == 'sink_put_octet' and strip_cast(e.args[1]) == C(END)]
+        if raw_end_in_loop:
+            open_close_ok = False
+            detail = 'a raw delimiter is emitted from inside the payload loop at %s: frame boundaries depend on the payload' % raw_end_in_loop[0].where()
     ck.verdict(open_close_ok, 'C12.b', 'encode:delimiters', ewhere,
                'open emits END only with start-of-frame, close emits exactly one END' if open_close_ok else detail)
     try:
